@@ -59,9 +59,11 @@ func execute(t vlib.TB, sp e1Spec, c e1Case) (*sim.Run, sim.Outcome, *runStats) 
 			}
 		}
 		if v := r.W.FirstViolation(sp.props...); v != nil {
-			vlib.Fail(t, sp.check, v.Sig, c, "%s\nuser log: %v", v.Msg, r.UserLog)
+			vlib.Fail(t, sp.check, v.Sig, e1Case{S: c.S, H: r.Effective}, "%s\nuser log: %v", v.Msg, r.UserLog)
 		}
 	}
+	prefix := append([]sim.Action(nil), r.Effective...)
+	c = e1Case{S: c.S, H: prefix} // what is written to a replay file: needs no exclusion logic
 	out := r.Complete(budgetFor(c.S))
 	st.terminal = out.Terminal
 	for k, n := range sim.GenExcluded {
@@ -101,6 +103,12 @@ func execute(t vlib.TB, sp e1Spec, c e1Case) (*sim.Run, sim.Outcome, *runStats) 
 func classes(c e1Case) (cls []string, sig string, disturb int, kinds map[string]bool) {
 	s := c.S
 	cls = []string{"kind=" + s.Workload + "/" + s.Style, "provider=" + s.Provider, fmt.Sprintf("steps=%d", len(s.Steps))}
+	if len(s.Steps) > 0 && s.Provider != "" && (s.Steps[0].Traffic != nil || s.Steps[0].Match != "") && sim.StepCoversAll(s.Steps[0], s.Replicas) {
+		cls = append(cls, "first-traffic-step-covers-whole-workload")
+	}
+	if s.Replicas <= 3 {
+		cls = append(cls, "tiny-workload")
+	}
 	kinds = map[string]bool{}
 	first := true
 	for _, a := range c.H {
